@@ -1,7 +1,7 @@
 CONSTANTS
   Buggy = FALSE
-  MaxNameLen = 2
-  FMaxLen = 7
+  MaxNameLen = 3
+  FMaxLen = 9
 INIT Init
 NEXT Next
 INVARIANT RefOK
